@@ -382,10 +382,35 @@ def check(ctx: Ctx, col: Collector, tier: str) -> None:
     wraps = any(isinstance(x, ast.Constant) and x.value == "typing.Coroutine" for x in ast.walk(lib_function("mypy/semanal.py", "SemanticAnalyzer.analyze_func_def")))
     if not wraps:
         raise AnalysisError("mypy's analyze_func_def no longer wraps coroutine return types in typing.Coroutine; re-triage C07.COROUTINE")
+    # position of the annotated type among the wrapper's type arguments, read from the library source: named_type_or_none("typing.Coroutine", [any, any, ret_type])
+    lib_fn = lib_function("mypy/semanal.py", "SemanticAnalyzer.analyze_func_def")
+    ret_pos = None
+    for x in ast.walk(lib_fn):
+        if isinstance(x, ast.Call) and x.args and isinstance(x.args[0], ast.Constant) and x.args[0].value == "typing.Coroutine" and len(x.args) > 1 and isinstance(x.args[1], ast.List):
+            ret_pos = next((i for i, el in enumerate(x.args[1].elts) if "ret_type" in ast.unparse(el)), None)
+    if ret_pos is None:
+        raise AnalysisError("position of the return type in mypy's Coroutine wrapper not found; re-triage C07.COROUTINE")
+    unwrap_idx = []
+    for x in ast.walk(pfi.node):
+        if isinstance(x, ast.Assign) and isinstance(x.value, ast.Subscript) and isinstance(x.value.value, ast.Attribute) and x.value.value.attr == "args":
+            try:
+                idx_val = ast.literal_eval(x.value.slice)
+            except Exception:  # noqa: BLE001
+                continue
+            if not isinstance(idx_val, int):
+                continue
+            cur, guarded = repo.parent(x), False
+            while cur is not None and cur is not pfi.node:
+                if isinstance(cur, ast.If) and ("is_coroutine" in ast.unparse(cur.test) or "Coroutine" in ast.unparse(cur.test)):
+                    guarded = True
+                cur = repo.parent(cur)
+            if guarded:
+                unwrap_idx.append(idx_val)
     src_pr = ast.unparse(pfi.node)
-    unwraps = "is_coroutine" in src_pr or "typing.Coroutine" in src_pr or "Coroutine" in src_pr
+    unwraps = bool(unwrap_idx) and all(i in (ret_pos, ret_pos - 3) for i in unwrap_idx)
     key = f"{VISITOR}::MyPyAstVisitor._parse_results::coroutine-return-type"
-    (col.ok if unwraps else col.bad)("C07.COROUTINE", key, repo.loc(VISITOR, pfi.node), "the coroutine wrapper mypy puts around the return type of an `async def` is taken off" if unwraps else "node.type.ret_type is translated as it is",
+    (col.ok if unwraps else col.bad)("C07.COROUTINE", key, repo.loc(VISITOR, pfi.node), f"the coroutine wrapper mypy puts around the return type of an `async def` is taken off (type argument {ret_pos})" if unwraps
+                                     else ("node.type.ret_type is translated as it is" if not unwrap_idx else f"type argument {unwrap_idx} is taken, mypy puts the annotation at position {ret_pos}"),
                                      *([] if unwraps else ["for `async def` mypy's function type has the return type typing.Coroutine[Any, Any, T]; _parse_results translates that instead of the annotation: "
                                                            "`async def f() -> list[int]` gets the result `Coroutine<Any, Any, List<Int>>` and `async def g() -> None` gets a result at all"]))
     # when docstring entries are matched to results by their type, an entry names at most one result (two results of one type would otherwise
